@@ -69,7 +69,7 @@ func CreateScanner(t api.PackType, unpacker unpackFn) rio.ScanFunc {
 		case rio.Placement_Direct:
 			afs = nilFS.New()
 		default:
-			panic("unreachable")
+			return api.WareID{}, Errorf(rio.ErrUsage, "scan supports placement modes %q and %q only, not %q", rio.Placement_None, rio.Placement_Direct, placementMode)
 
 		}
 
